@@ -450,6 +450,35 @@ pub fn float_arithmetic() -> Vec<Snip06> {
             out.push(Snip06 { snip: Snip { stmts, label: format!("{:?} extremes: neg {:?}", t, a), ill_typed: false }, stdin: String::new(), boundary: true });
         }
     }
+    // divisors that are not zero but smaller than the tolerance of the interpreter's comparisons (0.00001):
+    // the quotient is an ordinary number, not a Division by zero
+    for (dtext, _what) in [(".00000762939453125", "2^-17"), (".00000095367431640625", "2^-20"), (".0000152587890625", "2^-16")] {
+        for numerator in ["1", "3", "-5", "1.5", "2.0#"] {
+            for dbl in [false, true] {
+                for negative in [false, true] {
+                    for store in [false, true] {
+                        let mut b = B::new();
+                        let dlit = Expr::Num(if dbl { format!("{}#", dtext) } else { dtext.to_string() });
+                        let dlit = if negative { Expr::Neg(Box::new(dlit)) } else { dlit };
+                        let nlit = if let Some(r) = numerator.strip_prefix('-') { Expr::Neg(Box::new(Expr::Num(r.to_string()))) } else { Expr::Num(numerator.to_string()) };
+                        let mut stmts = vec![];
+                        let e = if store {
+                            stmts.push(b.assign(var(if dbl { "DV#" } else { "DV!" }), dlit));
+                            bin(BinOp::Div, nlit, var(if dbl { "DV#" } else { "DV!" }))
+                        } else {
+                            bin(BinOp::Div, nlit, dlit)
+                        };
+                        stmts.push(b.print(vec![e]));
+                        out.push(Snip06 {
+                            snip: Snip { stmts, label: format!("tiny divisor: {} / {}{}{}{}", numerator, if negative { "-" } else { "" }, dtext, if dbl { "#" } else { "" }, if store { " (variable)" } else { "" }), ill_typed: false },
+                            stdin: String::new(),
+                            boundary: true,
+                        });
+                    }
+                }
+            }
+        }
+    }
     // DOUBLE -> SINGLE at the edge of the SINGLE range, through the storing routes
     let (smax, _) = float_extremes(Ty::Single);
     let smax_d = format!("{}#", smax);
